@@ -139,6 +139,21 @@ def cut_case(ctx, msgs, cut, seg, seed):
                 drain_polls(port, got)
         b.close()
         try:
+            if rng.random() < 0.4:
+                # the consumer leaves the loop after every second message and comes back (iterates again, polls)
+                for _ in range(len(msgs) + 3):
+                    k = 0
+                    for m in port:
+                        keep(got, m)
+                        k += 1
+                        if k == 2:
+                            break
+                    if k < 2:
+                        break
+                    if rng.random() < 0.5:
+                        drain_one = port.poll()
+                        if drain_one is not None:
+                            keep(got, drain_one)
             for m in port:
                 keep(got, m)
             ctx.count('iteration ends without exception')
